@@ -67,6 +67,9 @@ def gen_case0(rng, car):
         if not cplx and rng.random() < 0.3:        # a scalar with ~30 significant bits: exact in float64, not representable in float32
             c = expr.wide_dyadic(rng)
             return Op(op, [A, Scal(rng.choice(["float", "npf64", "t0"]), c, coq_value=Fraction(c))]), "ttm-scalar-wide", coqrun.QC
+        if not cplx and op in ("OMul", "ORMul") and rng.random() < 0.25:      # factors far below machine epsilon (exact powers of two): the product is exact, not "numerically zero"
+            c = rng.choice([2.0 ** -60, -2.0 ** -70, 2.0 ** -200]) if expr.CUR_DTYPE[0] in ("torch.float64", "torch.complex128") else rng.choice([2.0 ** -30, -2.0 ** -60])
+            return Op(op, [A, Scal(rng.choice(["float", "npf64", "t0"]), c, coq_value=Fraction(c))]), "ttm-scalar-tiny", coqrun.QC
         kind = rng.choice(["int", "float", "npf64", "npi64", "t0", "t1", "npu8", "tu8", "npi32"])
         v = rng.choice([0, 1, 2, -3])
         return Op(op, [A, Scal(kind, abs(v) if kind in ("npu8", "tu8") else v)]), "ttm-scalar", None
@@ -75,7 +78,7 @@ def gen_case0(rng, car):
         if cplx:
             return Op("OTr", [A], [[d]]), "transpose", None
         s = rng.choice([2, -2, 0.5])
-        return Op("ODiv", [A2, Scal(rng.choice(["int", "float", "t0"]) if s != 0.5 else "float", s, coq_value=1 / Fraction(s))]), "ttm-div", coqrun.QC
+        return Op("ODiv", [A2, Scal(rng.choice(["int", "float", "t0", "npi64", "npi32", "npf64", "npf32"]) if s != 0.5 else rng.choice(["float", "npf64", "npf32"]), s, coq_value=1 / Fraction(s))]), "ttm-div", coqrun.QC
     return Op("OEye", [], [distinct_sizes(rng, d)]), "eye", None
 
 def nontrivial(e, cat):
